@@ -2,6 +2,7 @@ import HcipyVerif.Lemmas.ModeBasis
 import HcipyVerif.Lemmas.Lstsq
 import HcipyVerif.Lemmas.GaussJordan
 import HcipyVerif.Lemmas.Mirror
+import HcipyVerif.Lemmas.SliceSegment
 
 /-!
 # C14 — Mode bases behave identically in every storage form; mirrors track actuators
@@ -125,14 +126,141 @@ theorem getitem_storage_independent (a b : Basis K) (ha : WF a) (hb : WF b) (h :
       rw [selectCols_npix, selectCols_npix, selectCols_nmodes, selectCols_nmodes,
         toDense_selectCols a ha, toDense_selectCols b hb, h1, h3]
 
+/-! #### `slice.indices` exactly (the executed `sliceIndices` / `rangeLen` / `rangeList`) -/
+
+/-- **The length of a range is exact**: for every start, stop and non-zero step, `k` is below
+`len(range(s, e, st))` exactly when `s + k·st` lies strictly before `e` in the direction of the
+step — so `rangeList s e st` enumerates, in order, precisely the set
+`{ s + k·st | k ∈ ℕ, s + k·st before e }` and nothing else. -/
+theorem slice_count_exact (s e st : Int) (hst : st ≠ 0) (k : Nat) :
+    k < rangeLen s e st ↔ (0 < st → s + k * st < e) ∧ (st < 0 → e < s + k * st) := by
+  unfold rangeLen
+  rcases lt_or_gt_of_ne hst with hneg | hpos
+  · have h1 : ¬ st > 0 := by omega
+    rw [if_neg h1]
+    have hp : 0 < -st := by omega
+    by_cases hes : e < s
+    · rw [if_pos hes]
+      have hnn : 0 ≤ (s - e - st - 1) / (-st) := Int.ediv_nonneg (by omega) (by omega)
+      have e2 : s - e + -st - 1 = s - e - st - 1 := by ring
+      constructor
+      · intro h
+        have : (k : Int) < (s - e - st - 1) / (-st) := by omega
+        have := (ceil_lt k (s - e) (-st) hp).mp (by rw [e2]; exact this)
+        exact ⟨fun h => by omega, fun _ => by nlinarith⟩
+      · intro ⟨_, h⟩
+        have h' := h hneg
+        have : (k : Int) * (-st) < s - e := by nlinarith
+        have := (ceil_lt k (s - e) (-st) hp).mpr this
+        rw [e2] at this
+        omega
+    · rw [if_neg hes]
+      constructor
+      · intro h; omega
+      · intro ⟨_, h⟩
+        have h' := h hneg
+        have : (0:Int) ≤ k := Int.natCast_nonneg k
+        nlinarith
+  · have h1 : st > 0 := hpos
+    rw [if_pos h1]
+    by_cases hse : s < e
+    · rw [if_pos hse]
+      have hnn : 0 ≤ (e - s + st - 1) / st := Int.ediv_nonneg (by omega) (by omega)
+      constructor
+      · intro h
+        have : (k : Int) < (e - s + st - 1) / st := by omega
+        have := (ceil_lt k (e - s) st hpos).mp this
+        exact ⟨fun _ => by linarith, fun h => by omega⟩
+      · intro ⟨h, _⟩
+        have h' := h hpos
+        have : (k : Int) * st < e - s := by linarith
+        have := (ceil_lt k (e - s) st hpos).mpr this
+        omega
+    · rw [if_neg hse]
+      constructor
+      · intro h; omega
+      · intro ⟨h, _⟩
+        have h' := h hpos
+        have : (0:Int) ≤ k := Int.natCast_nonneg k
+        nlinarith
+
+/-- **`slice.indices(n)` keeps every selected position inside `[0, n)`** for all arguments
+(negative, out of range, missing, negative steps): the `toNat` in `rangeList` loses nothing and
+`selectCols` never reads outside the matrix. -/
+theorem slice_indices_inbounds (n : Nat) (a b c : Option Int) (s e st : Int)
+    (h : sliceIndices n a b c = some (s, e, st)) (k : Nat) (hk : k < rangeLen s e st) :
+    0 ≤ s + k * st ∧ s + k * st < n := by
+  have hst : st ≠ 0 := (sliceIndices_step n a b c s e st h).1
+  have hr := (slice_count_exact s e st hst k).mp hk
+  have hk0 : (0:Int) ≤ k := Int.natCast_nonneg k
+  unfold sliceIndices at h
+  by_cases h0 : c.getD 1 = 0
+  · simp [h0] at h
+  · simp only [h0, if_false, Option.some.injEq, Prod.mk.injEq] at h
+    obtain ⟨hs, he, hc⟩ := h
+    rw [hc] at hs he
+    rcases lt_or_gt_of_ne hst with hneg | hpos
+    · have hb := hr.2 hneg
+      simp only [hneg, if_true] at hs he
+      have hs' : s ≤ n - 1 := by
+        rw [← hs]; cases a <;> simp <;> split_ifs <;> omega
+      have he' : -1 ≤ e := by
+        rw [← he]; cases b <;> simp <;> split_ifs <;> omega
+      constructor
+      · omega
+      · nlinarith
+    · have hb := hr.1 hpos
+      have hn : ¬ st < 0 := by omega
+      simp only [hn, if_false] at hs he
+      have hs' : 0 ≤ s := by
+        rw [← hs]; cases a <;> simp <;> split_ifs <;> omega
+      have he' : e ≤ n := by
+        rw [← he]; cases b <;> simp <;> split_ifs <;> omega
+      constructor
+      · nlinarith
+      · omega
+
+/-- **The positions a slice selects are exactly `{start + k·step}` of the normalised triple**, for
+all arguments: `sliceIdx` fails iff the step is zero (`ValueError`); otherwise, with
+`(s, e, st) = slice(a, b, c).indices(n)`, the list has one entry per `k` with `s + k·st` strictly
+before `e`, the `k`-th entry *is* `s + k·st` (as an integer — no truncation), and it is a valid
+column index. -/
+theorem sliceIdx_is_range (n : Nat) (a b c : Option Int) :
+    (sliceIdx n a b c = none ↔ c.getD 1 = 0) ∧
+    ∀ s e st, sliceIndices n a b c = some (s, e, st) →
+      ∃ l, sliceIdx n a b c = some l ∧ l.length = rangeLen s e st ∧
+        (∀ k : Nat, k < l.length ↔ (0 < st → s + k * st < e) ∧ (st < 0 → e < s + k * st)) ∧
+        ∀ k (hk : k < l.length), ((l[k] : Nat) : Int) = s + k * st ∧ l[k] < n := by
+  constructor
+  · unfold sliceIdx sliceIndices
+    by_cases h0 : c.getD 1 = 0 <;> simp [h0]
+  · intro s e st h
+    have hst := (sliceIndices_step n a b c s e st h).1
+    refine ⟨rangeList s e st, by simp [sliceIdx, h], by simp [rangeList], ?_, ?_⟩
+    · intro k
+      simp only [rangeList, List.length_map, List.length_range]
+      exact slice_count_exact s e st hst k
+    · intro k hk
+      have hk' : k < rangeLen s e st := by simpa [rangeList] using hk
+      have hb := slice_indices_inbounds n a b c s e st h k hk'
+      simp only [rangeList, List.getElem_map, List.getElem_range]
+      constructor
+      · exact Int.toNat_of_nonneg hb.1
+      · omega
+
+/-- the normalised triple exists for every non-zero step: e.g. `slice(None, None, -1).indices(3) = (2, -1, -1)` -/
+example : sliceIndices 3 none none (some (-1)) = some (2, -1, -1) ∧ sliceIdx 3 none none (some (-1)) = some [2, 1, 0] := by
+  decide
+
 /-- A window `k : k+1` selects exactly column `k` … -/
 theorem sliceIdx_window (n k : Nat) (hk : k < n) :
     sliceIdx n (some (k : Int)) (some ((k : Int) + 1)) none = some [k] := by
   have h1 : ¬ ((k : Int) < 0) := by omega
   have h2 : ¬ ((k : Int) + 1 < 0) := by omega
-  have h3 : min (k : Int) (n : Int) = k := by omega
-  have h4 : min ((k : Int) + 1) (n : Int) = k + 1 := by omega
-  simp [sliceIdx, h1, h2, h3, h4]
+  have h3 : ¬ ((k : Int) > (n : Int)) := by omega
+  have h4 : ¬ ((k : Int) + 1 > (n : Int)) := by omega
+  have h5 : ((k : Int) + 1 - k + 1 - 1) / 1 = 1 := by omega
+  simp [sliceIdx, sliceIndices, rangeList, rangeLen, h1, h2, h3, h4]
 
 /-- … and the code as pinned (D22) answered it with a bare mode on **every** sparse basis,
 while every dense basis answers with a one-mode `ModeBasis`: the two storage forms of one and
@@ -688,7 +816,307 @@ theorem mirror_returned_surface_private (infl : List (List K)) (n : Nat) (ops : 
     simpa [Spec.acts, spec, acts] using this
   rw [h1, h2]
 
+/-- **The surface is a function of the current actuator vector only** (what seeded regression C14-9
+violates).  Take any two histories whatsoever — on the same mirror or on two different mirror
+objects, with any values commanded and withdrawn on the way, any number of reads in between.  If
+they end with the same influence functions and the same current actuator values, the two
+mirrors report the same surface.  No algebraic law of the scalar is used, so this holds verbatim
+for scalar domains with a non-number (`Ext`, IEEE NaN): a NaN that has been withdrawn leaves no
+trace. -/
+theorem surface_history_free (infl₁ infl₂ : List (List K)) (n₁ n₂ : Nat) (ops₁ ops₂ : List (Op K)) :
+    let m₁ := (run (init infl₁ n₁) ops₁).1
+    let m₂ := (run (init infl₂ n₂) ops₂).1
+    m₁.infl = m₂.infl → acts m₁ = acts m₂ → (read m₁).2 = (read m₂).2 := by
+  intro m₁ m₂ hi ha
+  rw [read_snd _ (mirror_cache_invariant infl₁ n₁ ops₁), read_snd _ (mirror_cache_invariant infl₂ n₂ ops₂), hi, ha]
+
+/-- … in particular the surface of a mirror with any past equals the surface of a **fresh mirror**
+that is given the same influence functions and the same actuator vector (the comparison the
+harness makes on the running code after every step of an extreme history). -/
+theorem surface_eq_fresh_mirror (infl : List (List K)) (n : Nat) (ops : List (Op K)) :
+    let m := (run (init infl n) ops).1
+    (run (init m.infl m.nmodes) [.assign (acts m), .read]).2 = [(read m).2] := by
+  intro m
+  have fresh : ∀ (i : List (List K)) (k : Nat) (a : List K),
+      (spec (init i k)).run [.assign a, .read] = [matvec i a] := by
+    intro i k a
+    simp [Spec.run, Spec.step, Spec.acts, spec, init]
+  rw [mirror_surface_inv, read_snd _ (mirror_cache_invariant infl n ops), fresh]
+
+/-- the same statements hold over rationals extended by a non-number -/
+example (infl : List (List (Ext Rat))) (n : Nat) (ops : List (Op (Ext Rat))) :
+    let m := (run (init infl n) ops).1
+    (run (init m.infl m.nmodes) [.assign (acts m), .read]).2 = [(read m).2] :=
+  surface_eq_fresh_mirror infl n ops
+
+/-! #### `set_segment_actuators` / `get_segment_actuators` -/
+
+theorem acts_edit_cur (m : Mirror K) (i : Nat) (v : K) :
+    acts (step m (.edit m.cur i v)).1 = (acts m).set i v := by
+  show (m.heap.modify m.cur fun a => a.set i v).getD m.cur [] = (m.heap.getD m.cur []).set i v
+  by_cases h : m.cur < m.heap.length
+  · simp [List.getD_eq_getElem?_getD, List.getElem?_modify, h]
+  · have h' : m.heap.length ≤ m.cur := Nat.le_of_not_lt h
+    simp [List.getD_eq_getElem?_getD, List.getElem?_modify, List.getElem?_eq_none h']
+
+theorem cur_edit (m : Mirror K) (h i : Nat) (v : K) : (step m (.edit h i v)).1.cur = m.cur := rfl
+
+theorem acts_setSegment (m : Mirror K) (nseg id : Nat) (p t tl : K) :
+    acts (setSegment m nseg id p t tl) =
+      (((acts m).set id p).set (id + nseg) t).set (id + 2 * nseg) tl := by
+  unfold setSegment
+  have h1 := acts_edit_cur m id p
+  have h2 := acts_edit_cur (step m (.edit m.cur id p)).1 (id + nseg) t
+  rw [cur_edit] at h2
+  have h3 := acts_edit_cur (step (step m (.edit m.cur id p)).1 (.edit m.cur (id + nseg) t)).1 (id + 2 * nseg) tl
+  rw [cur_edit, cur_edit] at h3
+  rw [h3, h2, h1]
+
+/-- **`get_segment_actuators` returns what `set_segment_actuators` stored, and no other segment
+moves**, for a mirror of `nseg` segments (actuator vector `[pistons, tips, tilts]` of length
+`3·nseg`) in any state; the mirror keeps holding the same array object, its influence functions
+are untouched.  (As three in-place edits the operation is covered by `mirror_surface_inv`: the next
+read returns `IF ·` the new vector.) -/
+theorem segment_roundtrip (m : Mirror K) (nseg id : Nat) (p t tl : K) (hid : id < nseg)
+    (hlen : (acts m).length = 3 * nseg) :
+    getSegment (setSegment m nseg id p t tl) nseg id = (p, t, tl) ∧
+    (∀ j, j < nseg → j ≠ id → getSegment (setSegment m nseg id p t tl) nseg j = getSegment m nseg j) ∧
+    (setSegment m nseg id p t tl).cur = m.cur ∧ (setSegment m nseg id p t tl).infl = m.infl := by
+  refine ⟨?_, ?_, rfl, rfl⟩
+  · unfold getSegment
+    rw [acts_setSegment]
+    have e1 : id < (acts m).length := by omega
+    have e2 : id + nseg < (acts m).length := by omega
+    have e3 : id + 2 * nseg < (acts m).length := by omega
+    have n1 : id + nseg ≠ id := by omega
+    have n2 : id + 2 * nseg ≠ id := by omega
+    have n3 : id + 2 * nseg ≠ id + nseg := by omega
+    have z : nseg ≠ 0 := by omega
+    have z2 : 2 * nseg ≠ nseg := by omega
+    simp [List.getD_eq_getElem?_getD, List.getElem?_set, List.getElem_set, e1, e2, e3, n1, n2, n3, z, z2]
+  · intro j hj hne
+    unfold getSegment
+    rw [acts_setSegment]
+    have a1 : id ≠ j := fun h => hne h.symm
+    have a2 : id + nseg ≠ j := by omega
+    have a3 : id + 2 * nseg ≠ j := by omega
+    have b1 : id ≠ j + nseg := by omega
+    have b2 : id + nseg ≠ j + nseg := by omega
+    have b3 : id + 2 * nseg ≠ j + nseg := by omega
+    have c1 : id ≠ j + 2 * nseg := by omega
+    have c2 : id + nseg ≠ j + 2 * nseg := by omega
+    have c3 : id + 2 * nseg ≠ j + 2 * nseg := by omega
+    simp [List.getD_eq_getElem?_getD, List.getElem?_set, List.getElem_set, a1, a2, a3, b1, b2, b3, c1, c2, c3]
+
+/-- the hypotheses of `segment_roundtrip` are satisfiable: a new mirror of two segments -/
+example : (1 : Nat) < 2 ∧ (acts (init [[(1 : Int), 0, 0, 0, 0, 0]] 6)).length = 3 * 2 := by decide
+
 end mirror
+
+/-! ### Phase read-outs on the executed definitions (`phase_for`, `forward`, `backward`) -/
+section phases
+variable {K : Type} [Field K] [DecidableEq K]
+
+/-- **Closed form of the tip / tilt influence function of a segment** (the executed `tiltMode`, which
+the driver compares with the matrix `SegmentedDeformableMirror` builds): for an indicator segment
+(`s_i ∈ {0, 1}`) that covers `k` of the `N` grid points, `0 < k < N` as numbers of the field, the
+mode is `s_i · (c_i − c̄)` with `c̄ = (Σ_{i ∈ segment} c_i) / k` the mean coordinate over the segment.
+Hence, by `mirror_surface_inv`, the surface of a segment under `(piston, tip, tilt) = (p, t, u)` is
+the plane `p + t·(x − x̄) + u·(y − ȳ)` on its support and zero elsewhere — exact in rationals. -/
+theorem segment_tilt_mode_closed_form (s c : List K) (hs : ∀ a ∈ s, a * a = a)
+    (hlen : c.length = s.length) (hN : (s.length : K) ≠ 0) (hk : s.sum ≠ 0)
+    (hkN : s.sum ≠ (s.length : K)) :
+    tiltMode s c =
+      List.zipWith (fun si ci => si * (ci - (List.zipWith (· * ·) s c).sum / s.sum)) s c := by
+  unfold tiltMode mean
+  have hlen1 : (List.zipWith (· * ·) s c).length = s.length := by simp [hlen]
+  have hlen2 : (List.zipWith (· * ·) (List.zipWith (· * ·) s c) s).length = s.length := by simp [hlen]
+  rw [map_sq_ind s hs]
+  dsimp only
+  rw [sum_zipWith_mul_ind s c hs, hlen1, hlen2]
+  set N : K := (s.length : K)
+  set k : K := s.sum
+  set S : K := (List.zipWith (· * ·) s c).sum
+  have h3 : N - k ≠ 0 := sub_ne_zero.mpr (Ne.symm hkN)
+  have hnorm : k / N - k / N * (k / N) ≠ 0 := by
+    have : k / N - k / N * (k / N) = k * (N - k) / (N * N) := by field_simp
+    rw [this]
+    exact div_ne_zero (mul_ne_zero hk h3) (mul_ne_zero hN hN)
+  have hβ : (S / N - k / N * (S / N)) / (k / N - k / N * (k / N)) = S / k := by
+    rw [div_eq_div_iff hnorm hk]
+    field_simp
+  rw [if_neg hnorm, hβ]
+  clear_value N k S
+  clear hlen1 hlen2 hnorm hβ h3 hk hkN hN
+  induction s generalizing c with
+  | nil => simp
+  | cons a s ih =>
+    cases c with
+    | nil => simp
+    | cons b c =>
+      simp only [List.zipWith_cons_cons]
+      rw [ih c (fun x hx => hs x (by simp [hx])) (by simpa using hlen)]
+      congr 1
+      ring
+
+/-- the hypotheses are satisfiable: a segment of two of three points, and the closed form evaluated -/
+example : tiltMode [(1 : ℚ), 1, 0] [0, 2, 7] = [-1, 1, 0] ∧
+    (∀ a ∈ [(1 : ℚ), 1, 0], a * a = a) ∧ (([(1 : ℚ), 1, 0].length : ℚ) ≠ 0) ∧
+    ([(1 : ℚ), 1, 0].sum ≠ 0) ∧ ([(1 : ℚ), 1, 0].sum ≠ (([(1 : ℚ), 1, 0].length : ℚ))) := by
+  refine ⟨by decide +kernel, ?_, by norm_num, by norm_num, by norm_num⟩
+  intro a ha
+  simp at ha
+  rcases ha with rfl | rfl <;> norm_num
+
+/-- **`phase_for`, `forward` and `backward` see `IF · actuators`** in every reachable state: the
+phase is `2π · (2 · IF·a / λ)` and the reflected field is the incoming one times `exp(±2πi ·` that
+`)` — stated about the definitions the driver executes for `C14 mirror phase / forward / backward`. -/
+theorem mirror_phase_ideal (infl : List (List K)) (n : Nat) (ops : List (Op K)) (wl : K)
+    (e : List (PVal K)) :
+    let m := (run (init infl n) ops).1
+    (readPhase wl m).2 = phaseTurns wl (matvec m.infl (acts m)) ∧
+    (forward wl e m).2 = applyPhase e (phaseTurns wl (matvec m.infl (acts m))) ∧
+    (backward wl e m).2 = applyPhaseConj e (phaseTurns wl (matvec m.infl (acts m))) := by
+  intro m
+  have hm := read_snd m (mirror_cache_invariant infl n ops)
+  refine ⟨?_, ?_, ?_⟩
+  · show phaseTurns wl (read m).2 = _
+    rw [hm]
+  · show applyPhase e (phaseTurns wl (read m).2) = _
+    rw [hm]
+  · show applyPhaseConj e (phaseTurns wl (read m).2) = _
+    rw [hm]
+
+/-- **`backward ∘ forward = id`** on the executed definitions, in every reachable state of the
+mirror and for every field on the mirror's grid: propagating a wavefront through the mirror and
+back returns it unchanged (the second evaluation of `surface` — a cache hit or not — yields the
+same array), and **`forward` conserves the power** `Σ|E|²` (any squared modulus `nsq`). -/
+theorem mirror_backward_forward_id (infl : List (List K)) (n : Nat) (ops : List (Op K)) (wl : K)
+    (e : List (PVal K)) (nsq : K → K) :
+    let m := (run (init infl n) ops).1
+    e.length = m.infl.length →
+    (backward wl (forward wl e m).2 (forward wl e m).1).2 = e ∧
+    power nsq (forward wl e m).2 = power nsq e ∧
+    power nsq (backward wl e m).2 = power nsq e := by
+  intro m hlen
+  have hinv := mirror_cache_invariant infl n ops
+  have hm := read_snd m hinv
+  have hinv' : Inv (read m).1 := read_inv m hinv
+  have hspec := read_fst_spec m
+  have h1 : (read m).1.infl = m.infl := congrArg Spec.infl hspec
+  have h2 : acts (read m).1 = acts m := by
+    have := congrArg Spec.acts hspec
+    simpa [Spec.acts, spec, acts] using this
+  have hm' : (read (read m).1).2 = matvec m.infl (acts m) := by
+    rw [read_snd _ hinv', h1, h2]
+  have hl : e.length = (phaseTurns wl (matvec m.infl (acts m))).length := by
+    simp [phaseTurns, double, matvec, hlen]
+  refine ⟨?_, ?_, ?_⟩
+  · show applyPhaseConj (applyPhase e (phaseTurns wl (read m).2)) (phaseTurns wl (read (read m).1).2) = e
+    rw [hm, hm']
+    exact applyPhaseConj_applyPhase e _ hl
+  · show power nsq (applyPhase e (phaseTurns wl (read m).2)) = _
+    rw [hm]
+    exact power_applyPhase nsq e _ hl
+  · show power nsq (applyPhaseConj e (phaseTurns wl (read m).2)) = _
+    rw [hm]
+    have : applyPhaseConj e (phaseTurns wl (matvec m.infl (acts m))) =
+        applyPhase e ((phaseTurns wl (matvec m.infl (acts m))).map (- ·)) := by
+      simp [applyPhase, applyPhaseConj, List.zipWith_map_right, sub_eq_add_neg]
+    rw [this]
+    exact power_applyPhase nsq e _ (by simpa using hl)
+
+/-- the hypothesis of `mirror_backward_forward_id` is satisfiable: a one-pixel field on a one-pixel mirror -/
+example : ([⟨(1 : ℚ), 0⟩] : List (PVal ℚ)).length = (run (init [[(1 : ℚ)]] 1) []).1.infl.length := rfl
+
+end phases
+
+/-- **What the formal phases mean.**  Reading a formal field value `(E, c)` as the complex number
+`E · exp(2πi·c)` (`PVal.den`), the executed `applyPhase` *is* the multiplication by `exp(2πi·d)` the
+code performs (`wf.electric_field *= exp(2i·k·surface)`, `d = 2·surface/λ` turns), `applyPhaseConj`
+the multiplication by the conjugate factor, and for real phases the modulus of every pixel — hence
+the power — is unchanged. -/
+theorem formal_phase_semantics (e : List (PVal ℂ)) (d : List ℂ) :
+    (applyPhase e d).map PVal.den =
+      List.zipWith (fun x t => x.den * Complex.exp (2 * Real.pi * t * Complex.I)) e d ∧
+    (applyPhaseConj e d).map PVal.den =
+      List.zipWith (fun x t => x.den * Complex.exp (-(2 * Real.pi * t * Complex.I))) e d ∧
+    ∀ (amp : ℂ) (c : ℝ), ‖PVal.den ⟨amp, (c : ℂ)⟩‖ = ‖amp‖ := by
+  refine ⟨?_, ?_, norm_den⟩
+  · induction e generalizing d with
+    | nil => cases d <;> rfl
+    | cons x xs ih =>
+      cases d with
+      | nil => rfl
+      | cons t ts =>
+        have := ih ts
+        simp only [applyPhase, List.zipWith_cons_cons, List.map_cons] at this ⊢
+        rw [this, den_add]
+  · induction e generalizing d with
+    | nil => cases d <;> rfl
+    | cons x xs ih =>
+      cases d with
+      | nil => rfl
+      | cons t ts =>
+        have := ih ts
+        simp only [applyPhaseConj, List.zipWith_cons_cons, List.map_cons] at this ⊢
+        rw [this, sub_eq_add_neg, den_add]
+        congr 2
+        ring_nf
+
+/-! ### An incrementally updated surface is not history free (seeded regression C14-9) -/
+section Bad
+open HcipyVerif.Mirror.Bad
+
+/-- **`surface += IF·(actuators − cached)` keeps a withdrawn NaN for ever.**  Ten actuators, one
+pixel that sees all of them; the surface is read, actuator 3 is set (in place) to the non-number,
+the surface is read, the actuator is set back to 2 — or the mirror is flattened — and the surface
+is read again.  The incrementally updated surface still is `nan`; the specification, and the
+executed `read`, answer `2` (resp. `0`).  The same history with the finite value `7` in place of
+`nan` gives the right answers also incrementally — over exact numbers the update is harmless,
+which is why the harness has to command non-finite and out-of-scale values to see it. -/
+theorem bad_incremental_not_history_free :
+    runWith (readIncremental 10) (init [List.replicate 10 (Ext.fin (1 : Int))] 10)
+        [.read, .edit 0 3 .nan, .read, .edit 0 3 (.fin 2), .read] = [[.fin 0], [.nan], [.nan]] ∧
+    (run (init [List.replicate 10 (Ext.fin (1 : Int))] 10)
+        [.read, .edit 0 3 .nan, .read, .edit 0 3 (.fin 2), .read]).2 = [[.fin 0], [.nan], [.fin 2]] ∧
+    runWith (readIncremental 10) (init [List.replicate 10 (Ext.fin (1 : Int))] 10)
+        [.read, .edit 0 3 .nan, .read, .flatten, .read] = [[.fin 0], [.nan], [.nan]] ∧
+    (run (init [List.replicate 10 (Ext.fin (1 : Int))] 10)
+        [.read, .edit 0 3 .nan, .read, .flatten, .read]).2 = [[.fin 0], [.nan], [.fin 0]] ∧
+    runWith (readIncremental 10) (init [List.replicate 10 (Ext.fin (1 : Int))] 10)
+        [.read, .edit 0 3 (.fin 7), .read, .edit 0 3 (.fin 2), .read] = [[.fin 0], [.fin 7], [.fin 2]] := by
+  decide +kernel
+
+/-- **Over exact numbers the incremental update is invisible**: for any commutative ring, any `ratio`
+and any state satisfying the cache invariant, `readIncremental` returns exactly `IF · actuators` —
+what `read` returns.  So no model over `ℚ` alone, and no history of values on which floating point
+is exact, can tell the seeded code from the original; the counterexample above needs the
+non-number, the harness needs NaN / inf or values many orders of magnitude apart. -/
+theorem bad_incremental_exact_over_rings {R : Type} [CommRing R] [DecidableEq R] (ratio : Nat)
+    (m : Mirror R) (h : Inv m) :
+    (readIncremental ratio m).2 = matvec m.infl (acts m) ∧ (readIncremental ratio m).2 = (read m).2 := by
+  have key : (readIncremental ratio m).2 = matvec m.infl (acts m) := by
+    unfold readIncremental
+    cases hc : m.cached with
+    | none => simp only []; rw [handCopy_snd, surface_recompute]
+    | some c =>
+      simp only []
+      by_cases h1 : c = acts m
+      · rw [if_pos h1, handCopy_snd, h.cache c hc, h1]
+      · rw [if_neg h1]
+        by_cases h2 : c.length = (acts m).length ∧ nchanged (acts m) c * ratio ≤ c.length
+        · rw [if_pos h2, handCopy_snd]
+          show (m.sheap ++ [_]).getD m.sheap.length [] = _
+          rw [getD_append_length, h.cache c hc]
+          exact matvec_sub_add m.infl (acts m) c h2.1
+        · rw [if_neg h2, handCopy_snd, surface_recompute]
+  exact ⟨key, by rw [key, read_snd m h]⟩
+
+/-- the hypothesis is satisfiable: every reachable state satisfies the invariant (`mirror_cache_invariant`) -/
+example : Inv (run (init [[(1 : Int), 2]] 2) [.assign [3, 4], .read]).1 := mirror_cache_invariant _ _ _
+
+end Bad
 
 /-! ### The two classic broken caches are really broken -/
 
